@@ -683,8 +683,17 @@ def _len_feeds(b, sw, vec):
         if d[0] == 'st' and d[3]['rv'].get('k') == 'bin':
             for side in ('a', 'b'):
                 o = d[3]['rv'][side]
-                if o.get('k') in ('copy', 'move') and not o['place']['proj'] and o['place']['local'] in dests:
-                    return True
+                for _ in range(4):
+                    if not (o.get('k') in ('copy', 'move') and not o['place']['proj']):
+                        break
+                    if o['place']['local'] in dests:
+                        return True
+                    # `let found = v.len();` - the measured length kept in a variable: plain copies are followed
+                    ds = [x for x in b.defs().get(o['place']['local'], [])]
+                    if len(ds) == 1 and ds[0][0] == 'st' and ds[0][3]['rv'].get('k') == 'use':
+                        o = ds[0][3]['rv']['op']
+                    else:
+                        break
     return False
 
 
@@ -701,6 +710,9 @@ def lengths_reaching(b, vec, site):
     # the length was measured when the switch ran: nothing may change the vector between the len() call and the switch
     out = set()
     seen = {}
+    later = {s2: e2 for s2, e2 in len_switches(b, vec) if s2 != sw}
+    grow_blocks = [gb for gb, gt in b.calls() if gt['args'] and _ref_root(b, gt['args'][0]) == vec and mir.cname(callee_name(gt)) not in _LEN_CALLS
+                   and mir.cname(callee_name(gt)) not in ('Vec::is_empty', 'Vec::iter', 'slice::iter', 'Deref::deref', 'Vec::as_slice', 'Index::index')]
     work = [(tg, key) for key, tg in edges.items() if tg is not None]
     while work:
         blk, ln = work.pop()
@@ -717,6 +729,13 @@ def lengths_reaching(b, vec, site):
             continue
         seen[blk] = ln
         t = b.blocks[blk]['term']
+        if ln == 'otherwise' and blk in later and not any(b.reaches(lb, gb) and b.reaches(gb, blk) for lb in _len_call_blocks(b, vec) for gb in grow_blocks
+                                                           if b.reaches(lb, blk)):
+            # a further test of the same length (`len != 5 && len != 6`): its edges name the length where the first did not
+            for key, tg in later[blk].items():
+                if tg is not None:
+                    work.append((tg, key))
+            continue
         if t['k'] == 'call' and t['args'] and _ref_root(b, t['args'][0]) == vec:
             n = mir.cname(callee_name(t))
             if n in _GROW_BY_ONE:
@@ -784,14 +803,14 @@ def subst_params(t, args):
 
 
 
-def inline_calls(prog, t, depth=2):
+def inline_calls(prog, t, depth=2, stop=None):
     """Replace calls of crate-local functions and closures that have a single return value by that value, parameters and
     captures substituted (so that `close(a1, a2, b1, b2)` reads as the comparison it computes)."""
     def f(x, d):
         if not isinstance(x, tuple):
             return x
         x = (x[0],) + tuple(f(y, d) if isinstance(y, tuple) else y for y in x[1:])
-        if x[0] == 'call' and x[1] in prog.bodies and d > 0:
+        if x[0] == 'call' and x[1] in prog.bodies and d > 0 and not (stop is not None and stop(x[1])):
             cb = prog.bodies[x[1]]
             rv = cb.return_values()
             if len(rv) == 1:
